@@ -274,6 +274,17 @@ func (s *Sim) advanceTime() bool {
 		s.TimeAdvances++
 		t.fired = true
 		t.fire()
+		// every timer due at this same instant fires before any task runs, so
+		// that a select can really find several ready cases (tickers with a
+		// common multiple, a tick and a deadline)
+		for s.timers.Len() > 0 && s.timers[0].when <= s.now {
+			t2 := heap.Pop(&s.timers).(*timer)
+			if t2.dead {
+				continue
+			}
+			t2.fired = true
+			t2.fire()
+		}
 		return true
 	}
 	return false
